@@ -149,7 +149,7 @@ def run_shard(spec):
                              (idioms.capture_scalar_programs, [['1']]), (idioms.narrowing_programs, idioms.NARROW_ARGS),
                              (idioms.fresh_literal_programs, idioms.FRESH_ARGS), (idioms.exprstmt_programs, idioms.EXPRSTMT_ARGS),
                              (idioms.tailcall_programs, idioms.TAILCALL_ARGS), (idioms.global_neighbour_programs, idioms.NEIGHBOUR_ARGS),
-                             (idioms.bitvector_programs, idioms.BITVECTOR_ARGS), (idioms.overload_arity_programs, [['7'], ['300']])):
+                             (idioms.bitvector_programs, idioms.BITVECTOR_ARGS), (idioms.overload_arity_programs, [['7'], ['300']]), (idioms.const_shadow_programs, idioms.CONST_SHADOW_ARGS)):
             for tag, prog in gen():
                 k += 1
                 if k % spec['parts'] == spec['part']:
